@@ -388,6 +388,7 @@ def main(argv):
     from vlib import env
 
     os.environ[env.GUARD] = "1"
+    env.ensure_deps()  # once, in the parent, before the workers start (they would otherwise race to install)
     mod = importlib.import_module("checks." + a.check.lower())
     rc = run_check(mod, a.tier, seed, a.replay)
     sys.exit(rc)
